@@ -35,18 +35,18 @@ type Violation struct {
 }
 
 type Result struct {
-	Idx        int              `json:"idx"`
-	Verdict    string           `json:"verdict"`
-	Sig        string           `json:"sig,omitempty"`
-	NonTrivial bool             `json:"nt,omitempty"`
-	Evals      int64            `json:"evals,omitempty"`       // executions inside this case (default 1)
-	DistinctNT int64            `json:"distinct_nt,omitempty"` // pre-counted distinct non-trivial cases of a disjoint batch
-	Stats      map[string]int64 `json:"stats,omitempty"`
+	Idx        int                 `json:"idx"`
+	Verdict    string              `json:"verdict"`
+	Sig        string              `json:"sig,omitempty"`
+	NonTrivial bool                `json:"nt,omitempty"`
+	Evals      int64               `json:"evals,omitempty"`       // executions inside this case (default 1)
+	DistinctNT int64               `json:"distinct_nt,omitempty"` // pre-counted distinct non-trivial cases of a disjoint batch
+	Stats      map[string]int64    `json:"stats,omitempty"`
 	Sets       map[string][]string `json:"sets,omitempty"` // named sets, unioned by the parent (bounded)
-	Sample     any              `json:"sample,omitempty"`
-	Violations []Violation      `json:"violations,omitempty"`
-	Note       string           `json:"note,omitempty"`
-	Retire     bool             `json:"retire,omitempty"`
+	Sample     any                 `json:"sample,omitempty"`
+	Violations []Violation         `json:"violations,omitempty"`
+	Note       string              `json:"note,omitempty"`
+	Retire     bool                `json:"retire,omitempty"`
 }
 
 func (r *Result) Stat(k string, d int64) {
@@ -113,7 +113,7 @@ type Prop struct {
 
 var registry = map[string]*Prop{}
 
-func Register(p *Prop) { registry[p.ID] = p }
+func Register(p *Prop)    { registry[p.ID] = p }
 func Get(id string) *Prop { return registry[id] }
 func IDs() []string {
 	var ids []string
@@ -224,20 +224,20 @@ type Options struct {
 }
 
 type agg struct {
-	mu        sync.Mutex
-	results   int
-	evals     int64
-	sigs      map[uint64]struct{}
-	distinct  int64
-	stats     map[string]int64
-	sets      map[string]map[string]struct{}
-	samples   []any
-	incon     int
-	viol      []caseViolation
-	crashes   int
-	broken    []string
-	maxStats  map[string]bool
-	raceLogs  []string
+	mu       sync.Mutex
+	results  int
+	evals    int64
+	sigs     map[uint64]struct{}
+	distinct int64
+	stats    map[string]int64
+	sets     map[string]map[string]struct{}
+	samples  []any
+	incon    int
+	viol     []caseViolation
+	crashes  int
+	broken   []string
+	maxStats map[string]bool
+	raceLogs []string
 }
 
 type caseViolation struct {
@@ -648,14 +648,14 @@ func RunParent(p *Prop, o Options) int {
 		}
 		assume := append([]string{"the harness transports are reliable and ordered", "verdicts cover only the executions produced by this run"}, p.Assumptions...)
 		ev := map[string]any{
-			"property_id": p.ID,
-			"tier":        o.Tier,
-			"seed":        o.Seed,
-			"level":       p.Level,
-			"coverage":    cov,
-			"assumptions": assume,
-			"wall_s":      time.Since(t0).Seconds(),
-			"violations":  nviol,
+			"property_id":         p.ID,
+			"tier":                o.Tier,
+			"seed":                o.Seed,
+			"level":               p.Level,
+			"coverage":            cov,
+			"assumptions":         assume,
+			"wall_s":              time.Since(t0).Seconds(),
+			"violations":          nviol,
 			"known_findings_seen": len(printedKnown),
 		}
 		b, _ := json.MarshalIndent(ev, "", " ")
